@@ -374,6 +374,14 @@ def rounding(ctx, mi):
   except nf.NFError as e:
     half = None
     r = 'unreadable (%s)' % e
+  # located: the position is rounded to some number of digits before the floor - every value within that distance below a half-step
+  # boundary is moved onto the boundary and then up, to the farther step
+  pre = [c for c in ast.walk(fn) if isinstance(c, ast.Call) and dotted(c.func) in ('round', 'numpy.round', 'np.round', 'numpy.around', 'np.around', 'numpy.round_', 'np.round_')]
+  ctx.ob('ROUND/no-rounding-before-the-floor', fi, pre[0] if pre else rets[0], not pre, 'the position reaches the floor unrounded' if not pre else
+         '`%s` rounds the position before floor(position + 1/2): a time a few ulps (anything less than the rounding unit) below a half-step boundary is moved onto the boundary and quantized to the '
+         'farther step - only exact ties may round up' % norm_text(pre[0])[:70], construct='no rounding of the position before the floor', definite=True)
+  if pre:
+    return
   ok = half is not None and half == Fraction(1, 2)
   ctx.ob('ROUND/half', fi, rets[0], ok, 'operand is seconds*steps_per_second + 1/2' if ok else
          'operand of the floor is %r, not seconds*steps_per_second + 1/2' % (r,), construct='floor operand = seconds * steps_per_second + 1/2')
